@@ -280,6 +280,8 @@ impl<F: Float, L: Label + std::fmt::Debug> TreeNode<F, L> {
                 // then skip computing the quality
                 if weight_on_right_side < hyperparameters.min_weight_leaf()
                     || weight_on_left_side < hyperparameters.min_weight_leaf()
+                    || weight_on_right_side <= 0.0
+                    || weight_on_left_side <= 0.0
                 {
                     continue;
                 }
